@@ -87,8 +87,11 @@ def run(ctx):
                         written_fields.add(self_attr(t))
     defs = {}
     for n in ast.walk(main):
-        if isinstance(n, ast.Assign) and isinstance(n.targets[0], ast.Name):
-            defs.setdefault(n.targets[0].id, []).append(n.value)
+        if isinstance(n, ast.Assign):
+            for t in n.targets:
+                for x in ast.walk(t):
+                    if isinstance(x, ast.Name):
+                        defs.setdefault(x.id, []).append(n.value)
     for c in ctors:
         lab = None
         if pidx < len(c.args):
